@@ -7,7 +7,7 @@ PROP = 'C13'
 TITLE = 'Ill-formed schemas and models are rejected; accepted models always terminate'
 LEAN_TARGETS = ['NdnProofs.Props.C13']
 THEOREMS = [
-    'Ndn.C13.sanity_iff_documented', 'Ndn.C13.modelError_iff_not_sane', 'Ndn.C13.accepted_sane',
+    'Ndn.C13.sanity_iff_documented', 'Ndn.C13.modelError_iff_not_sane', 'Ndn.C13.load_rejects_bad_node_id', 'Ndn.C13.accepted_sane',
     'Ndn.C13.match_terminates', 'Ndn.C13.match_stable', 'Ndn.C13.check_terminates',
     'Ndn.C13.match_no_exception', 'Ndn.C13.sign_cycle_rejected',
     'Ndn.C13.compile_rejects_bad_reference', 'Ndn.C13.compile_rejects_reference_cycle', 'Ndn.C13.compile_rejects_bad_constraint',
@@ -319,11 +319,15 @@ def apply_wire_mutation(wire, mut):
 
 
 def doc_rules_broken(m, bny):
-    """the six sanity rules of binary-format.rst on the part reachable from the start node
+    """the six sanity rules of binary-format.rst: "every node's NodeId equals to its index in the array" for every
+    node of the array, the other rules on the part reachable from the start node
     (independent transcription; returns the name of a broken rule or None)"""
     if m.version is None or m.version != doc_version():
         return 'version'
     nodes = m.nodes or []
+    for idx, nd in enumerate(nodes):
+        if nd.id != idx:
+            return 'node-id'
     if m.start_id is None:
         return None
     todo, seen = [m.start_id], set()
@@ -511,10 +515,6 @@ def model_line(case, impl):
     tok = impl.get('token')
     if tok is None:
         return None
-    if case['mut'][:2] == ['add_node', None] or case['mut'] == ['wire', 'append', '6300']:
-        # an UNREACHABLE node without NodeId: the loader raises TypeError (top_order sorts None with ints), the Lean loader
-        # ignores unreachable nodes; outside the documented rules as the oracle reads them (reachable part) -> oracle only
-        return None
     names = [L.name_bytes(nm) for nm in case['names']]
     return 'C13 full %s %s %s' % (tok, L.enc_env(case.get('fns', L.FN_NAMES)), '/'.join(L.enc_name(n) for n in names))
 
@@ -625,7 +625,7 @@ def finding_key(case, impl, why):
 
 
 LEVEL_TEXT = ('Lean 4 theorems over a hand-written model of Checker._sanity_check and Checker._match: the loader\'s structural '
-              'check succeeds iff the six documented sanity rules hold of the reachable part (both directions; the (<=) direction '
+              'check succeeds iff the six documented sanity rules hold (node ids for every node of the array, the other rules of the reachable part; both directions; the (<=) direction '
               'proves that "parent = source" makes the reachable part a tree, so the dfs ends within its fuel); on every accepted '
               'model the iterative back-tracking search ends within an explicit bound stepBound(maxPE, |name|) for every name, '
               'context and user-function dictionary; check only runs such searches. The compiler (compiler.py, all passes as written) is '
